@@ -1,6 +1,7 @@
 (* C07 — check, compile and run agree on which sources are valid. *)
 From Coq Require Import List.
-From Lace Require Import Word Asm Cli CliProofs Watch.
+From Lace Require Import Word Asm Cli CliProofs Watch CliFile.
+From Lace Require Utf8.
 From Lace Require Examples.
 Open Scope N_scope.
 
@@ -20,6 +21,33 @@ Proof.
   split; [|exact Examples.ex_rejected]. pose proof Examples.ex_assembles as H.
   destruct (assemble false nil Examples.ex_src_ok) as [[im| |] sym]; try contradiction. apply H.
 Qed.
+
+(** The same at the level of FILES (CliFile.v): every sub-command reads its source with `fs::read_to_string`, i.e. the
+    file's bytes decoded as strict UTF-8, an i/o error otherwise.  For EVERY byte string — valid UTF-8 or not — the three
+    verdicts agree; a file that is not valid UTF-8 is rejected by all of them (exit status 1); and a file that is the UTF-8
+    encoding of a text gets exactly the text-level verdicts of [C07_agree]. *)
+Theorem C07_agree_files : forall feat bytes,
+  (check_file feat bytes = 0 <-> compile_file feat bytes = 0) /\
+  (compile_file feat bytes = 0 <-> run_file_assembles feat bytes = true).
+Proof. exact files_agree. Qed.
+Print Assumptions C07_agree_files.
+
+Theorem C07_invalid_file : forall feat bytes, read_to_string bytes = None ->
+  check_file feat bytes = 1 /\ compile_file feat bytes = 1 /\ run_file_assembles feat bytes = false.
+Proof. exact invalid_file_rejected. Qed.
+Print Assumptions C07_invalid_file.
+
+Theorem C07_file_text : forall feat src, forallb Utf8.scalar src = true ->
+  check_file feat (Utf8.encode_all src) = check_exit feat src /\
+  compile_file feat (Utf8.encode_all src) = compile_exit feat src /\
+  run_file_assembles feat (Utf8.encode_all src) = run_assembles feat src.
+Proof. exact check_file_text. Qed.
+Print Assumptions C07_file_text.
+
+(** Non-vacuity: a Latin-1 e-acute in a comment makes the file unreadable for all; its UTF-8 form is accepted. *)
+Example C07_files_nonvacuous :
+  read_to_string ex_file_latin1 = None /\ check_file false ex_file_utf8 = 0.
+Proof. split; [exact (proj1 ex_latin1)|exact (proj2 (proj2 (proj2 ex_latin1)))]. Qed.
 
 (** `lace watch` (Watch.v: the handler assembles the current contents with the symbol table as the
     previous re-check left it, prints the verdict, resets).  Every re-check — whatever the earlier
